@@ -26,6 +26,11 @@ CLAIMED = {
     text="Exhaustive 4x4 (kinds + non-numeric) symbolic execution of the real try_coerce_to and 3x3 of check_type_against: a coercion happens iff the kind strictly widens in Nat<Int<Float, it calls exactly the direct conversion method of the actual type, narrowing raises GuppyTypeError; Kind.__lt__/auto numbering proved equal to that order; the three conversion methods' bound ops are proved value-preserving (nat->int for v<2^63, ->float = round-to-nearest of the unsigned/signed reading) over all 64-bit values.",
     note="convert_u/convert_s semantics assumed; get_instance_func/check_call mocked (the obligation is which method is requested).",
     technique="deductive: exhaustive path-wise symbolic execution of the real functions over the finite kind domain + z3 BV/FP obligations for the bound conversion ops"),
+ "C09": dict(
+    category="proof", design_ref="DESIGN.md §6 C09",
+    text="The real BackwardAnalysis.run / ForwardAnalysis.run (with the real LivenessAnalysis / AssignmentAnalysis methods) are executed symbolically over an arbitrary CFG (uninterpreted blocks/variables, arbitrary real and dummy edge relations, arbitrary use/assign maps) with queue.pop() returning an ARBITRARY member; the worklist loop is cut at an inductive invariant (shape, 'every block outside the queue satisfies its equation', per-variable extremality against an arbitrary closed / post-fixpoint family). z3 proves initialisation, preservation and that at loop exit the result is a fixpoint and the unique extremal one, hence independent of the visiting order, for include_unreachable True and False. LivenessAnalysis.join's loop is proved against its contract; AssignmentAnalysis.__init__ establishes all_vars. Obligations left open by quantifier reasoning are re-checked on finite instances of the sorts to produce counter-models, which are replayed on the real classes under all pop orders.",
+    note="predecessors are assumed inverse to successors; bbs closed under edges; lists modelled as sets; liveness dict abstracted to key set + witness; termination not proved; the 'path' reading of the extremal solution is the standard lemma (not mechanised).",
+    technique="deductive: loop-invariant VCs generated from the real run() bodies by symbolic execution (arbitrary pop), z3 with quantifiers; finite-instance counter-model search for refutations"),
 }
 
 NOT_APPLICABLE = {
